@@ -50,7 +50,12 @@ Pool == <<
   \* VALUES whichever route built it (observed by a type test)
   Set("u", Hide(WMulti(<<WInt, WStr>>), I(5))),
   Set("ua", ArrE(<<V("u"), I(7)>>)),
-  Set("tt", IfSet("qq", WArr(WInt), V("ua"), I(1), I(0)))
+  Set("tt", IfSet("qq", WArr(WInt), V("ua"), I(1), I(0))),
+  \* the iterator operators are implemented by helper code with names of its own (`iterator', `default', ...): a user
+  \* variable of such a name is not touched by evaluating an operator
+  Set("default", H(7)),
+  Set("ints", CollectE(TFilterE(IterE(ArrE(<<I(1), S(<<97>>), I(2)>>)), WInt))),
+  Set("dd", V("default"))
 >>
 \* a statement can only be fed when the names it uses are bound: sessions are generated freely and the
 \* specification classifies ill-formed ones as "stuck" (unbound name) — those are expected to be rejected.
